@@ -5,8 +5,8 @@ From Geo Require Import Model.EdgeQuery.
 Import ListNotations.
 Local Open Scope Z_scope.
 
-(** integer distances; [sub] clamped at zero as s1.ChordAngle.Sub *)
-Definition zops : dist_ops Z := mkOps Z Z.ltb (fun a b => Z.max 0 (a - b)) 0 (10 ^ 9) Z.eqb.
+(** integer distances; [sub] clamped at zero as s1.ChordAngle.Sub (and the identity below zero) *)
+Definition zops : dist_ops Z := mkOps Z Z.ltb (fun a b => Z.min a (Z.max 0 (a - b))) 0 (10 ^ 9) Z.eqb.
 (** the distance arithmetic before bd38ae9: raw subtraction *)
 Definition zops_raw : dist_ops Z := mkOps Z Z.ltb Z.sub 0 (10 ^ 9) Z.eqb.
 
